@@ -8,7 +8,7 @@ CONSTANTS
   Mode = "c16"
   AccSet = "wide"
   SubVariants = "small"
-  MaxHist = 4
+  MaxHist = 3
 SPECIFICATION MCSpec
 INVARIANTS TypeOK EmitCases
 CONSTRAINT HistBound
